@@ -22,6 +22,7 @@ import (
 	"sync/atomic"
 	"time"
 
+	"github.com/containerd/stargz-snapshotter/util/verifhook"
 	"golang.org/x/sync/semaphore"
 )
 
@@ -74,6 +75,7 @@ func (ts *BackgroundTaskManager) DoPrioritizedTask() {
 	// Notify the prioritized task execution to background tasks.
 	ts.prioritizedTaskStartNotifyMu.Lock()
 	atomic.AddInt64(&ts.prioritizedTasks, 1)
+	verifhook.Point("task.pbegin", ts)
 	close(ts.prioritizedTaskStartNotify)
 	ts.prioritizedTaskStartNotify = make(chan struct{})
 	ts.prioritizedTaskStartNotifyMu.Unlock()
@@ -86,6 +88,7 @@ func (ts *BackgroundTaskManager) DonePrioritizedTask() {
 		// Notify the task completion after `ts.prioritizedTaskSilencePeriod`
 		// so that background tasks aren't invoked immediately.
 		time.Sleep(ts.prioritizedTaskSilencePeriod)
+		verifhook.Point("task.pend", ts)
 		atomic.AddInt64(&ts.prioritizedTasks, -1)
 		ts.prioritizedTaskDoneCond.L.Lock()
 		ts.prioritizedTaskDoneCond.Broadcast()
@@ -120,6 +123,9 @@ func (ts *BackgroundTaskManager) InvokeBackgroundTask(do func(context.Context), 
 			ts.prioritizedTaskStartNotifyMu.Lock()
 			ch := ts.prioritizedTaskStartNotify
 			tasks := atomic.LoadInt64(&ts.prioritizedTasks)
+			if tasks <= 0 {
+				verifhook.Point("task.start", ts)
+			}
 			ts.prioritizedTaskStartNotifyMu.Unlock()
 			if tasks > 0 {
 				return false
@@ -134,12 +140,14 @@ func (ts *BackgroundTaskManager) InvokeBackgroundTask(do func(context.Context), 
 			defer cancel()
 			go func() {
 				do(ctx)
+				verifhook.Point("task.bodydone", ts)
 				close(done)
 			}()
 
 			// Wait until the background task is done or canceled.
 			select {
 			case <-ch: // some prioritized tasks started; retry it later
+				verifhook.Point("task.cancel", ts)
 				cancel()
 				return false
 			case <-done: // All tasks completed
